@@ -1,4 +1,4 @@
-PROP = {"ready": True, 'coq': ['theories/Properties/C08.v'],
+PROP = {"mismatch_is_violation": True, "ready": True, 'coq': ['theories/Properties/C08.v'],
  'suites': [{'bin': 'obs-numscript', 'corpus': 'numscript'}],
  'trusted': ['hand-written models Numscript/{Funding,VM,Syntax,Compiler,Run,Sem}.v of '
              'internal/machine/{funding,allotment,portion,monetary}.go, vm/{machine,run,stack}.go, script/compiler/*.go; tied on every run '
